@@ -494,7 +494,7 @@ func (c *concCtx) kLoopErrorExits(rule string) {
 				}
 				onErr := false
 				for _, dc := range dominatingConds(b) {
-					if bo, ok := dc.cond.(*ssa.BinOp); ok && bo.X == ssa.Value(call) && isNilConst(bo.Y) && (bo.Op == token.NEQ) == dc.outcome {
+					if bo, ok := dc.cond.(*ssa.BinOp); ok && errFromCall(bo.X, call, 0) && isNilConst(bo.Y) && (bo.Op == token.NEQ) == dc.outcome {
 						onErr = true
 					}
 				}
@@ -639,4 +639,22 @@ func terminateClosesStream(r *Run, rule, rel string) {
 		return
 	}
 	r.OK(rule, key, fn.Pos(), "%d path(s): each closes the stream or leaves through an idempotence test that implies an earlier close", len(paths))
+}
+
+// errFromCall: v is the error result of call, possibly merged with replacements of it (`if errors.Is(err, X) { err = Y }`).
+func errFromCall(v ssa.Value, call *ssa.Call, d int) bool {
+	if v == ssa.Value(call) {
+		return true
+	}
+	if ex, ok := v.(*ssa.Extract); ok && ex.Tuple == ssa.Value(call) {
+		return true
+	}
+	if ph, ok := v.(*ssa.Phi); ok && d < 3 {
+		for _, e := range ph.Edges {
+			if errFromCall(e, call, d+1) {
+				return true
+			}
+		}
+	}
+	return false
 }
